@@ -119,12 +119,14 @@ def seekRead (A : AEAD) (keyOf : Bytes → Nat) (fix : Bool) (css : Nat) (ct : B
 that (but more than what it already holds) = last segment; a full read = not the last one, the extra
 byte is kept. If NO further byte arrives — nothing at all for the first segment, or only the
 look-ahead byte carried over from the previous one — `io.ReadFull` answers `io.EOF` and the reader
-passes that on: the stream ends cleanly. -/
-def seqLoop (A : AEAD) (key : Nat) (pre : Bytes) (css : Nat) : Nat → Nat → Bytes → Bytes → Res
+passes that on: the stream ends cleanly. `guard` = the repaired middleware
+(fixes/C16-sequential-reader-rejects-cut-streams.patch): it counts the ciphertext bytes and turns exactly
+these two ends — total length 40, or one byte more than a whole number of segment slots — into errors. -/
+def seqLoop (A : AEAD) (key : Nat) (pre : Bytes) (css : Nat) (guard : Bool) : Nat → Nat → Bytes → Bytes → Res
   | 0, _, _, acc => .err acc
   | fuel + 1, j, rest, acc =>
     let size := if j = 0 then css - hdrLen else css
-    if rest.isEmpty || (j != 0 && rest.length == 1) then .ok acc else
+    if rest.isEmpty || (j != 0 && rest.length == 1) then (if guard then .err acc else .ok acc) else
     if rest.length ≤ size then
       match A.openSeg key ⟨pre, j, true⟩ rest with
       | none => .err acc
@@ -132,13 +134,13 @@ def seqLoop (A : AEAD) (key : Nat) (pre : Bytes) (css : Nat) : Nat → Nat → B
     else
       match A.openSeg key ⟨pre, j, false⟩ (rest.take size) with
       | none => .err acc
-      | some p => seqLoop A key pre css fuel (j + 1) (rest.drop size) (acc ++ p)
+      | some p => seqLoop A key pre css guard fuel (j + 1) (rest.drop size) (acc ++ p)
 
-def seqRead (A : AEAD) (keyOf : Bytes → Nat) (fixEof : Bool) (css : Nat) (ct : Bytes) : Res :=
+def seqRead (A : AEAD) (keyOf : Bytes → Nat) (fixEof : Bool) (css : Nat) (ct : Bytes) (guard : Bool := false) : Res :=
   -- no tink stream at all: `io.ReadFull` of the 40 header bytes answers io.EOF, which reads as a clean end
   if ct.isEmpty && !fixEof then .ok [] else
   if ct.length < hdrLen || ct.headD 0 != 40 then .err [] else
-  seqLoop A (keyOf ((ct.drop 1).take 32)) ((ct.drop 33).take 7) css (ct.length + 2) 0 (ct.drop hdrLen) []
+  seqLoop A (keyOf ((ct.drop 1).take 32)) ((ct.drop 33).take 7) css guard (ct.length + 2) 0 (ct.drop hdrLen) []
 
 /-! ## envelope framing (tink.go) -/
 
